@@ -441,6 +441,7 @@ type Contract struct {
 	Auto       bool // generated by a sweep directive: uncontracted callees are opaque, never inlined
 	NoTypeInv  bool
 	OvfCheck   bool
+	Defines    []*Clause // naming clauses: assumed by callers, not checked in the body (the function is deterministic)
 	AssumeInv  bool // type-invariant postconditions of this unit are assumed, not proved (listed)
 }
 
@@ -492,7 +493,7 @@ type SpecDB struct {
 
 var clauseKeywords = map[string]bool{"func": true, "requires": true, "ensures": true, "modifies": true, "allocbound": true,
 	"loop": true, "mode": true, "trusted": true, "prop": true, "pred": true, "lemma": true, "pure": true, "inline": true,
-	"split": true, "noverify": true, "ghost": true, "timeout": true, "opaque": true, "recpred": true, "oncall": true, "sweep": true, "typeinv": true, "notypeinv": true, "ovfcheck": true, "assumeinv": true}
+	"split": true, "noverify": true, "ghost": true, "timeout": true, "opaque": true, "recpred": true, "oncall": true, "sweep": true, "typeinv": true, "notypeinv": true, "ovfcheck": true, "assumeinv": true, "defines": true}
 
 // LoadSpecs parses every verif_contracts*.go in dir (package name pkg).
 func LoadSpecs(db *SpecDB, dir, pkg string) error {
@@ -692,6 +693,12 @@ func loadSpecFile(db *SpecDB, file, pkg string) error {
 				fs := strings.Fields(rest)
 				cur.Split = fs[0]
 				cur.SplitVals = fs[1:]
+			case "defines":
+				c, err := mk(rest)
+				if err != nil {
+					return err
+				}
+				cur.Defines = append(cur.Defines, c)
 			case "requires", "ensures", "allocbound":
 				c, err := mk(rest)
 				if err != nil {
